@@ -1886,7 +1886,7 @@ class Dot(Expression, Binary):
 
     @property
     def name(self) -> str:
-        return self.expression.name
+        return self.expression.name if self.expression else ""
 
     @property
     def output_name(self) -> str:
